@@ -3,6 +3,7 @@ import Logrange.Proofs.RdIterFwd
 import Logrange.Proofs.RdPaging
 import Logrange.Proofs.RdQueryLift
 import Logrange.Proofs.RdResend
+import Logrange.Proofs.RdMerge2
 import Logrange.Generated.C03
 /-!
 # C03 — Paged and resumed reading delivers every matching event exactly once
@@ -116,6 +117,40 @@ theorem appends_between_pages (name : Nat) (w : Bool) (j0 : Journal) (l0 : Nat) 
       (∀ st evs, steps.getLast? = some st → (pagesC name w j0 l0 steps).getLast? = some evs →
         evs.length < st.limit → R = []) :=
   pg_pages_grow getFwd nextFwd grows j0 l0 steps hne hs hch
+
+/-! ## paging over a MERGED cursor of two partitions, for ALL journals, limits and environment choices
+
+`pages2 n1 n2 j1 j2 l0 steps`: the cursor `newCursor` builds over two partitions (the faithful mixer-tree model:
+two `LogEventIterator` leaves under one `Mixer`, no filter), first page from `head`, then per step the held
+cursor object continues (`same`: the mixer keeps its selected head over `Release`) or a new cursor is built from
+the position text of both partitions (`fresh`). -/
+
+/-- **paging_two_partitions**: the concatenated pages are the first Σ limits events of the timestamp merge of the two
+partitions (ties to the first source in leaf order) — whatever the limits and whatever is chosen per page. -/
+theorem paging_two_partitions (n1 n2 : Nat) (j1 j2 : Journal) (l0 : Nat) (steps : List (Choice × Nat))
+    (hs1 : Sorted j1) (hs2 : Sorted j2) (hne : n1 ≠ n2) :
+    (pages2 n1 n2 j1 j2 l0 steps).flatten =
+      (List.merge (flat j1) (flat j2) leTs).take (l0 + (steps.map (·.2)).sum) :=
+  m2_paging getFwd nextFwd hs1 hs2 hne l0 steps
+
+/-- … and that merge is the property's unlimited read: the same multiset as the two partitions together, each
+partition's events in stored order (so every event exactly once, nothing foreign). -/
+theorem merged_read_is_interleaving (j1 j2 : Journal) :
+    (List.merge (flat j1) (flat j2) leTs).Perm (flat j1 ++ flat j2) ∧
+    (flat j1).Sublist (List.merge (flat j1) (flat j2) leTs) ∧
+    (flat j2).Sublist (List.merge (flat j1) (flat j2) leTs) :=
+  ⟨List.merge_perm_append leTs, m2_sublist_left leTs _ _, m2_sublist_right leTs _ _⟩
+
+/-- one `Get` of the merged cursor returns the head of the merge and one `Next` consumes it (any state) -/
+theorem merged_get_next (n1 n2 : Nat) (j1 j2 : Journal) (c : Cur) (a b : Nat) (hs1 : Sorted j1) (hs2 : Sorted j2)
+    (h : Abs2 n1 n2 j1 j2 c a b) :
+    (curGet c).2 = (R2 j1 j2 a b).head? ∧
+    ∃ a' b', Abs2 n1 n2 j1 j2 (curNext c) a' b' ∧ R2 j1 j2 a' b' = (R2 j1 j2 a b).tail :=
+  ⟨(m2_curGet_abs getFwd nextFwd hs1 hs2 h).1, m2_curNext_abs getFwd nextFwd hs1 hs2 h⟩
+
+/-- non-vacuity: two partitions with a timestamp tie, a fresh cursor and then the same one -/
+example : (pages2 0 1 [⟨10, [⟨0, 0, true⟩, ⟨2, 2, true⟩], 0, maxU32⟩] [⟨10, [⟨1, 1, true⟩, ⟨2, 2, false⟩], 0, maxU32⟩] 1
+      [(.fresh, 2), (.same, 5)]).flatten = [⟨0, 0, true⟩, ⟨1, 1, true⟩, ⟨2, 2, true⟩, ⟨2, 2, false⟩] := by decide +kernel
 
 /-! ### the same chain through `Querier.Query` and the provider -/
 
